@@ -25,8 +25,9 @@ enum Scenario {
     ClientAbandon { kind: Kind, k: usize, queued: bool },
     /// AsyncServer with a write timeout: response stalls after `k` bytes past the deadline
     AsyncServerWriteTimeout { k: usize, pipelined: bool },
-    /// AsyncServer, pipelined requests, response stream stalled after `k` bytes then released
-    AsyncServerStall { k: usize, n: usize },
+    /// AsyncServer, pipelined requests, response stream stalled after `k` bytes then released;
+    /// `chunk` > 0: the transport accepts at most `chunk` bytes per write call (short writes)
+    AsyncServerStall { k: usize, n: usize, chunk: usize },
     /// WebSocket server: off-reader responses + handler-pushed notifies with a stalled peer
     WsServerMixed { n: usize, stall: usize },
     /// blocking Server over TCP: 24 MiB response, peer stops reading past the write timeout
@@ -65,7 +66,17 @@ fn scenarios(tier: Tier) -> Vec<Scenario> {
             v.push(Scenario::AsyncServerWriteTimeout { k, pipelined });
         }
         for n in [2usize, 3] {
-            v.push(Scenario::AsyncServerStall { k, n });
+            v.push(Scenario::AsyncServerStall { k, n, chunk: 0 });
+        }
+    }
+    for chunk in [1usize, 7, 48, 1000, 4096, 8191, 8192, 8193] {
+        if chunk == 1 && tier == Tier::Quick {
+            continue;
+        }
+        v.push(Scenario::AsyncServerStall { k: 0, n: 2, chunk });
+        v.push(Scenario::AsyncServerStall { k: 51, n: 3, chunk });
+        for kind in [Kind::Async, Kind::Ws] {
+            v.push(Scenario::ClientWriters { kind, pads: vec![20_000, 0, 9000], stall: Some(usize::MAX - chunk) });
         }
     }
     for n in [2usize, 3, tier.pick(4, 8)] {
@@ -87,8 +98,11 @@ async fn client_writers(kind: Kind, pads: &[usize], stall: Option<usize>) -> (Ba
     let mut bad = Bad::new();
     let ctx = format!("{} pads {pads:?} stall {stall:?}", kind.name());
     let Conn { cli, mut peer, .. } = clients::connect(kind).await;
-    if let Some(k) = stall {
-        peer.ctl().a_to_b.set_credit(Some(k));
+    match stall {
+        // (encoding) values near usize::MAX request short writes of `usize::MAX - k` bytes instead of a stall
+        Some(k) if k > usize::MAX / 2 => peer.ctl().a_to_b.set_write_chunk(usize::MAX - k),
+        Some(k) => peer.ctl().a_to_b.set_credit(Some(k)),
+        None => {}
     }
     let mut tags = Vec::new();
     let mut hs = Vec::new();
@@ -101,7 +115,7 @@ async fn client_writers(kind: Kind, pads: &[usize], stall: Option<usize>) -> (Ba
     tags.push(900);
     memstream::settle().await;
     let mut flags = 0;
-    if stall.is_some() && peer.ctl().a_to_b.stalls() > 0 {
+    if stall.is_some_and(|k| k <= usize::MAX / 2) && peer.ctl().a_to_b.stalls() > 0 {
         flags |= 1;
     }
     // the peer resumes reading
@@ -287,11 +301,12 @@ async fn async_server_write_timeout(k: usize, pipelined: bool) -> (Bad, u64) {
     (bad, flags | 32)
 }
 
-async fn async_server_stall(k: usize, n: usize) -> (Bad, u64) {
+async fn async_server_stall(k: usize, n: usize, chunk: usize) -> (Bad, u64) {
     let mut bad = Bad::new();
-    let ctx = format!("AsyncServer, {n} pipelined requests, peer stalls after {k} bytes then resumes");
+    let ctx = format!("AsyncServer, {n} pipelined requests, peer stalls after {k} bytes then resumes, at most {chunk} bytes per write call (0 = unlimited)");
     let (ctl, _client_end, srv) = async_server_conn(None, srv_slot()).await;
     ctl.a_to_b.set_credit(Some(k));
+    ctl.a_to_b.set_write_chunk(chunk);
     for i in 0..n {
         let path = if i % 2 == 0 { "/big" } else { "/small" };
         ctl.b_to_a.push(&Frame::request(10 + i as u64, path, i.to_string().as_bytes(), FMT_JSON, false).to_bytes());
@@ -299,6 +314,11 @@ async fn async_server_stall(k: usize, n: usize) -> (Bad, u64) {
     memstream::settle().await;
     ctl.a_to_b.set_credit(None);
     memstream::settle().await;
+    if ctl.a_to_b.overflowed() {
+        bad.push(("C05:AsyncServer:runaway-writer".into(), format!("{ctx}: the server kept writing beyond {} MiB for {n} small responses", memstream::PIPE_LIMIT >> 20)));
+        srv.abort();
+        return (bad, 64);
+    }
     let wire = ctl.a_to_b.take();
     match frames::split_stream(&wire) {
         Ok((fr, 0)) => {
@@ -517,7 +537,7 @@ fn run_one(rt: &tokio::runtime::Runtime, sc: &Scenario) -> (Bad, u64) {
         Scenario::ClientWriters { kind, pads, stall } => rt.block_on(client_writers(*kind, pads, *stall)),
         Scenario::ClientAbandon { kind, k, queued } => rt.block_on(client_abandon(*kind, *k, *queued)),
         Scenario::AsyncServerWriteTimeout { k, pipelined } => rt.block_on(async_server_write_timeout(*k, *pipelined)),
-        Scenario::AsyncServerStall { k, n } => rt.block_on(async_server_stall(*k, *n)),
+        Scenario::AsyncServerStall { k, n, chunk } => rt.block_on(async_server_stall(*k, *n, *chunk)),
         Scenario::WsServerMixed { n, stall } => {
             // off-reader handlers need real time: use a runtime whose clock is not paused
             let rt2 = tokio::runtime::Builder::new_current_thread().enable_time().build().unwrap();
